@@ -99,7 +99,7 @@ class Request:
     __slots__ = ("op", "text", "variables", "operation_name", "wseed",
                  "faults", "exp", "variant", "nonfinite", "configs",
                  "ninstr", "mws", "tracer", "skew", "preparsed", "index",
-                 "gen", "document", "repeat_of", "exp_snapshot", "l2")
+                 "gen", "document", "repeat_of", "exp_snapshot", "l2", "root")
 
 
 def _gen_request(draws, spec, bundle, idx, profile, want_mut, tier="quick",
@@ -201,13 +201,22 @@ def _gen_request(draws, spec, bundle, idx, profile, want_mut, tier="quick",
 
 def _finish_request(draws, spec, req, idx, profile, rs, tier):
     op = req.op
+    # a root value handed to the entry point (root resolvers receive it)
+    req.root = None
+    if rs.chance(1, 3, "root_value"):
+        req.root = {"__id__": "ROOT%d" % rs.below(3, "root_id"),
+                    "__typename__": op.root_type}
+    if req.variant == "normal" and rs.chance(1, 4, "extra_variable"):
+        # undeclared variables in the payload are ignored
+        req.variables["undeclared_extra"] = {"x": [1, None]}
     # ---- faults: placed on positions enumerated by a fault-free model run
     fs = draws.stream("faults%d" % idx)
     req.faults = {}
     req.exp = None
     if req.variant == "normal":
         base = expected_response(spec, op, World(spec, req.wseed,
-                                                 nonfinite=req.nonfinite))
+                                                 nonfinite=req.nonfinite),
+                                 root_value=req.root)
         nf = fs.weighted((4, 3, 2, 1, 1, 1), "n_faults")
         kinds = ["err", "null", "errx", "errs"]
         if profile.get("boom", (0, 1))[0] and fs.chance(
@@ -224,7 +233,7 @@ def _finish_request(draws, spec, req, idx, profile, rs, tier):
                 req.faults[path] = kinds[fs.below(len(kinds), "fault_kind")]
         req.exp = expected_response(
             spec, op, World(spec, req.wseed, req.faults,
-                            nonfinite=req.nonfinite))
+                            nonfinite=req.nonfinite), root_value=req.root)
     req.exp_snapshot = req.exp
 
     # ---- which configurations / stacks ---------------------------------
@@ -258,7 +267,7 @@ def _finish_request(draws, spec, req, idx, profile, rs, tier):
                     ("err", "errs", "null")[fs.below(3, "l2_fault_kind")])
         l2.exp = expected_response(
             spec, op, World(spec, req.wseed, l2.faults,
-                            nonfinite=req.nonfinite))
+                            nonfinite=req.nonfinite), root_value=req.root)
         l2.exp_snapshot = l2.exp
         req.l2 = l2
     req.ninstr = 1
@@ -508,7 +517,7 @@ def _overlap(res, prop, config, bundle, spec, pair, ost, digest, sample):
         # repeats: recompute this request's expectation from its own state
         requests.append({
             "text": r.text, "variables": r.variables,
-            "operation_name": r.operation_name,
+            "operation_name": r.operation_name, "root": r.root,
         })
         worlds.append(World(spec, r.wseed, r.faults))
     kernel, outs = run_overlapped(config, bundle, requests, worlds, ost,
@@ -608,6 +617,7 @@ def _execute(config, bundle, spec, req, sched, policy):
                  else parse(req.text)) if req.preparsed else req.text,
         "variables": req.variables,
         "operation_name": req.operation_name,
+        "root": req.root,
     }
     try:
         out = run_config(
